@@ -489,6 +489,9 @@ func main() {
 	}
 	if *vlib.FlagN > 0 {
 		nseq = *vlib.FlagN
+		if nseq < 1000 {
+			maxExp, concOps, ringOps = 20, nseq*150, nseq*200
+		}
 	}
 	keys := map[string]struct{}{}
 	root := vlib.NewRand(res.Seed)
